@@ -101,6 +101,16 @@ class Sched:
             self.cv.notify_all()
         time.sleep(0.02)
 
+    def await_wake(self, name, wait=4.0):
+        """the model's wait_wake step: the thread's Condition.wait() ends (by a notify, or because its timeout elapses,
+        which takes real time); it then stands at the gate asking for the lock"""
+        if not getattr(self, "gated", False):
+            return
+        with self.cv:
+            deadline = time.time() + wait
+            while name not in self.want_reacquire and name not in self.done and time.time() < deadline:
+                self.cv.wait(0.05)
+
     def finish(self, timeout=3.0):
         self.free_run = True
         """let everybody run to completion (or give up after timeout: a real deadlock)"""
@@ -166,6 +176,7 @@ class GateCondition(threading.Condition):
 def gate(sched, obj, lock_attr="_lock", cv_attr="_cv"):
     """replace obj's lock/condition pair by the gated versions (before any thread uses them)"""
     gl = GateLock(sched)
+    sched.gated = True
     setattr(obj, lock_attr, gl)
     setattr(obj, cv_attr, GateCondition(gl))
     return gl
@@ -181,6 +192,9 @@ def run_schedule(files, fns, order, grace=0.4, finish=True, sched=None):
         name, internal = (item, None) if isinstance(item, str) else item
         if internal == "wait_reacquire":
             s.grant_reacquire(name)
+            continue
+        if internal == "wait_wake":
+            s.await_wake(name)
             continue
         if internal is not None:
             continue
